@@ -39,6 +39,7 @@ type Job struct {
 	Only     int      `json:"only"`
 	DumpLog  bool     `json:"dump_log"`
 	MaxViol  int      `json:"max_viol"`
+	Spread   bool     `json:"spread,omitempty"`
 }
 
 type Violation struct {
